@@ -22,7 +22,7 @@ Tok(i) == IF i = 1 THEN "d1" ELSE IF i = 2 THEN "d2" ELSE "d3"
 Ev0(k, i, code, x, plen) ==
   [k |-> k, t |-> 0, r |-> 1, tok |-> Tok(i), cls |-> IF k = "rx" THEN "req" ELSE IF k = "tx" THEN "resp" ELSE "",
    ty |-> "", code |-> code, x |-> x, inv |-> i,
-   plen |-> plen, leak |-> FALSE, mid |-> i, dig |-> i, nr |-> 0]
+   plen |-> plen, leak |-> FALSE, mid |-> i, dig |-> i, nr |-> 0, cid |-> -1, cok |-> TRUE]
 Ev(k, i, code, x, plen) == Ev0(k, i, code, x, plen)
 Step(es) == /\ emit' = es /\ obs' = ObsFold(obs, es)
 
@@ -48,7 +48,9 @@ Complete(i) ==
   /\ rq' = [rq EXCEPT ![i].st = "answered"]
   /\ LET code == Expected(rq[i].method, rq[i].outcome)
          plen == IF rq[i].outcome \in BareOutcomes THEN 0 ELSE 8
-     IN Step(<<Ev("release", i, 0, rq[i].outcome, 0), Ev("tx", i, code, "", plen)>>)
+         diag == RenderableOutcome(rq[i].outcome)      \* the diagnostic text travels from the raise to the wire
+     IN Step(<<[Ev("release", i, 0, rq[i].outcome, IF diag THEN 8 ELSE 0) EXCEPT !.cid = IF diag THEN i ELSE -1],
+               [Ev("tx", i, code, "", plen) EXCEPT !.cid = IF diag THEN i ELSE -1]>>)
 
 End == /\ Len(rq) = N /\ \A i \in 1..N : rq[i].st = "answered"
        /\ (IF emit = << >> THEN TRUE ELSE emit[Len(emit)].k # "end")
